@@ -459,7 +459,59 @@ def rule_r4(ctx: Ctx) -> None:
     ctx.floor("C05.R4", n, 1, "Grammar methods that re-initialise the grammar in place")
 
 
+def rule_r5(ctx: Ctx) -> None:
+    """The weight normalisation accepts every grammar extract_grammar accepts.  Grammar.update_weights is interpreted (dict
+    lookups strict: a missing key raises) on a model grammar START -> P1 | P2 whose supplied classes also contain a class the
+    start symbol does not reach - the case usable_grammar exists for - with the weights extract_grammar hands in (the
+    grammar's own get_weights()).  No interpretation may end in a KeyError."""
+    from ..modelinterp import Budget, Interp, Sym, UNKNOWN, _NONE
+    prog = ctx.prog
+    gcls = prog.classes.get(f"{GRAMMAR_MOD}.Grammar")
+    m = gcls.methods.get("update_weights") if gcls is not None else None
+    if m is None or len(m.params) < 3:
+        raise AnalysisError("anchor function missing: Grammar.update_weights(learning_rate, extra_weights)")
+    S, P1, P2, U = Sym("START"), Sym("P1"), Sym("P2"), Sym("UNREACHED")
+    for label, supplied in (("every supplied class reachable", [P1, P2]), ("a supplied class the start symbol does not reach", [P1, P2, U])):
+        env = {"self": Sym("self"), "self.alternatives": {"START": [P1, P2]}, "self.all_nodes": [S, P1, P2], "self.distanceToTerminal": {},
+               "self.recursive_prods": set(), "self.terminals": set(), "self.non_terminals": set(), "self.starting_symbol": S,
+               "self.considered_subtypes": list(supplied), "self.expansion_depthing": False,
+               m.params[1]: 1, m.params[2]: {"START": 1.0, "P1": 1.0, "P2": 1.0}}
+
+        def call_model(it, call, env_, args, kwargs):
+            nm = call_name(call)
+            if nm in ("register_type", "preprocess", "warn", "validate"):
+                return _NONE
+            if nm == "is_abstract":
+                return True
+            if nm == "get_gengy":
+                return {}
+            return None
+
+        it = Interp(prog, gcls, lambda *_: None, call_model, max_depth=5, max_traces=32)
+        it.strict_keys = True
+        construct = f"Grammar.update_weights completes: {label}"
+        try:
+            runs = it.run(m, env)
+        except Budget:
+            ctx.ob("C05.R5", m, m.node, construct, None, "too many interpretations")
+            continue
+        bad = [e for tr, _, _ in runs for e in tr if e.kind == "raise" and e.name.startswith("KeyError")]
+        other = [e for tr, _, _ in runs for e in tr if e.kind == "raise" and not e.name.startswith("KeyError")]
+        if bad:
+            ctx.ob("C05.R5", m, bad[0].node or m.node, construct, False,
+                   f"'{norm(bad[0].node)[:60]}' raises {bad[0].name}: the table of weights has one entry per registered (reachable) "
+                   f"symbol but is indexed with every supplied class, so extract_grammar fails on a weighted grammar that is given "
+                   f"a class the start symbol does not reach (the same classes are accepted without weights)")
+        elif other:
+            ctx.ob("C05.R5", m, m.node, construct, None, f"the model run ends in {other[0].name}")
+        else:
+            ctx.ob("C05.R5", m, m.node, construct, True, "")
+    ctx.floor("C05.R5", 2, 2, "update_weights scenarios")
+
+
 def run(ctx: Ctx) -> None:
+    ctx.rule("C05.R5", "weight normalisation completes on every grammar extract_grammar accepts (supplied classes need not be reachable)")
+    rule_r5(ctx)
     ctx.rule("C05.R4", "a grammar that redoes its analysis in place keeps its start symbol, supplied classes and depth-counting mode")
     rule_r4(ctx)
     ctx.rule("C05.R1", "type-form walkers handle list / annotated / union / tuple and re-analyse what they unwrap")
